@@ -40,33 +40,40 @@ Theorem C16_power_le_capacity : forall (s : site) (tr : transformer) (X : list (
 Proof. exact transformer_capacity. Qed.
 Print Assumptions C16_power_le_capacity.
 
-(* Pods: a pod row is a 0/1 indicator over stations of one phase; the sum of the pod's currents
-   stays within the pod rating (+ tolerance). *)
-Theorem C16_pod : forall (s : site) (j : nat) (X : list (list R)) (T : nat) ovt ort (t : nat),
-  check_pod s j = true ->
+(* Pods: the pod row is a 0/1 indicator over exactly the documented stations of the pod (all on
+   one phase) and its limit is at most the documented rating; the sum of the pod's currents stays
+   within that limit (+ tolerance). *)
+Theorem C16_pod : forall (s : site) (j : nat) (rating : Q) (members : list nat)
+                         (X : list (list R)) (T : nat) ovt ort (t : nat),
+  check_pod s (j, rating, members) = true ->
   net_is_feasible RF (site_net_R s) X T false ovt ort = true ->
   (t < T)%nat ->
-  row_sum s j X t <= site_rhs s ovt ort j.
+  station_sum s members X t <= site_rhs s ovt ort j /\ Q2R (site_limit s j) <= Q2R rating.
 Proof. exact pod_bound. Qed.
 Print Assumptions C16_pod.
 
-(* Sub-panels (and transformers): the three line currents, written through the sums ab, bc, ca of
-   the currents of the panel's AB / BC / CA stations, stay within the per-phase rating. *)
-Theorem C16_panel : forall (s : site) (ja jb jc : nat) (X : list (list R)) (T : nat) ovt ort (t : nat),
-  check_panel s (ja, jb, jc) = true ->
+(* Sub-panels: the three line currents of the panel, written through the sums ab, bc, ca of the
+   currents of the panel's documented AB / BC / CA stations, stay within the per-phase limit
+   (+ tolerance), which is at most the documented rating. *)
+Theorem C16_panel : forall (s : site) (ja jb jc : nat) (rating : Q) (members : list nat)
+                           (X : list (list R)) (T : nat) ovt ort (t : nat),
+  check_panel s ((ja, jb, jc), rating, members) = true ->
   net_is_feasible RF (site_net_R s) X T false ovt ort = true ->
   (t < T)%nat ->
-  let mem := panel_flags (site_row s ja) (site_row s jb) (site_row s jc) in
+  let mem := member_flags (n_site_stations s) members in
   let ab := sum_sel (gflags AB (s_phases s) mem) X t in
   let bc := sum_sel (gflags BC (s_phases s) mem) X t in
   let ca := sum_sel (gflags CA (s_phases s) mem) X t in
-  sqrt (ab * ab + ca * ca + ab * ca) <= site_rhs s ovt ort ja /\
-  sqrt (ab * ab + bc * bc + ab * bc) <= site_rhs s ovt ort jb /\
-  sqrt (ca * ca + bc * bc + ca * bc) <= site_rhs s ovt ort jc.
+  let rhs := site_rhs s ovt ort ja in
+  sqrt (ab * ab + ca * ca + ab * ca) <= rhs /\
+  sqrt (ab * ab + bc * bc + ab * bc) <= rhs /\
+  sqrt (ca * ca + bc * bc + ca * bc) <= rhs /\
+  Q2R (site_limit s ja) <= Q2R rating.
 Proof.
-  intros s ja jb jc X T ovt ort t Hc Hf Ht.
-  destruct (check_panel_fields s ja jb jc Hc) as (Ha & Hb & Hcc & Hlen & Hd).
-  exact (delta_line_currents s ja jb jc _ X T ovt ort t Ha Hb Hcc Hlen Hd Hf Ht).
+  intros s ja jb jc rating members X T ovt ort t Hc Hf Ht.
+  destruct (check_panel_fields s ja jb jc rating members Hc) as (Ha & Hb & Hcc & Hlen & Hd & Eb & Ec & Hr).
+  destruct (delta_line_currents s ja jb jc _ X T ovt ort t Ha Hb Hcc Hlen Hd Hf Ht) as (H1 & H2 & H3).
+  cbv zeta. unfold site_rhs in *. rewrite Eb in H2. rewrite Ec in H3. auto.
 Qed.
 Print Assumptions C16_panel.
 
@@ -111,13 +118,25 @@ Theorem C16_sites_safe : forall s, In s all_sites ->
        <= 1000 * Q2R (t_cap tr) * (1 + Q2R eps50)
           + 3 * 120 * Rmax (opt_or RF ovt (Q2R (s_vt s)))
                            (opt_or RF ort (Q2R (s_rt s)) * Q2R (site_limit s (t_a tr))))
-    /\ (forall j, In j (s_pods s) -> row_sum s j X t <= site_rhs s ovt ort j).
+    /\ (forall j rating members, In (j, rating, members) (s_pods s) ->
+          station_sum s members X t <= site_rhs s ovt ort j /\ Q2R (site_limit s j) <= Q2R rating)
+    /\ (forall ja jb jc rating members, In ((ja, jb, jc), rating, members) (s_panels s) ->
+          let mem := member_flags (n_site_stations s) members in
+          let ab := sum_sel (gflags AB (s_phases s) mem) X t in
+          let bc := sum_sel (gflags BC (s_phases s) mem) X t in
+          let ca := sum_sel (gflags CA (s_phases s) mem) X t in
+          let rhs := site_rhs s ovt ort ja in
+          sqrt (ab * ab + ca * ca + ab * ca) <= rhs /\
+          sqrt (ab * ab + bc * bc + ab * bc) <= rhs /\
+          sqrt (ca * ca + bc * bc + ca * bc) <= rhs /\
+          Q2R (site_limit s ja) <= Q2R rating).
 Proof.
   intros s Hs X T ovt ort Hf t Ht.
-  destruct (check_site_parts s (all_sites_ok s Hs)) as (_ & _ & _ & Htr & Hpod & _).
-  split.
+  destruct (check_site_parts s (all_sites_ok s Hs)) as (_ & _ & _ & Htr & Hpod & Hpan).
+  split; [|split].
   - intros tr Hin. apply transformer_capacity with (T := T); auto.
-  - intros j Hin. apply pod_bound with (T := T); auto.
+  - intros j rating members Hin. apply pod_bound with (T := T); auto.
+  - intros ja jb jc rating members Hin. apply C16_panel with (T := T) (jb := jb) (jc := jc); auto.
 Qed.
 Print Assumptions C16_sites_safe.
 
